@@ -67,6 +67,7 @@ package route
 
 //@ contract route.(*TraceServer).ExportTraceData props C24 havoc
 //@   requires t != nil && t.router != nil
+//@   requires[distinct-sinks] toInt(refOf(t.router.UpstreamTransmission)) != toInt(refOf(t.router.PeerTransmission))
 //@   let cfg = t.router.Config.GetAccessKeyConfig()
 //@   let kid = ite(len(cfg.ReceiveKeyIDs) > 0, t.router.getKeyID(ri.ApiKey), "")
 //@   ensures[processed-only-if-accepted] otlpN(old(t.router)) != old(otlpN(t.router)) ==> keyAccepted(cfg, ri.ApiKey, kid)
@@ -78,6 +79,7 @@ package route
 //@ contract route.customTraceExportHandler props C24 havoc localcalls
 //@   requires isType(srv, *TraceServer) && asPtr(srv, *TraceServer) != nil && asPtr(srv, *TraceServer).router != nil
 //@   requires interceptor == nil
+//@   requires[distinct-sinks] toInt(refOf(asPtr(srv, *TraceServer).router.UpstreamTransmission)) != toInt(refOf(asPtr(srv, *TraceServer).router.PeerTransmission))
 //@   let rt = asPtr(srv, *TraceServer).router
 //@   let clientKey = huskyotlp.GetRequestInfoFromGrpcMetadata(ctx).ApiKey
 //@   let cfg = rt.Config.GetAccessKeyConfig()
@@ -87,10 +89,12 @@ package route
 
 //@ contract route.(*Router).processOTLPRequestWithMsgp props C24 havoc
 //@   requires r != nil
+//@   requires[distinct-sinks] toInt(refOf(r.UpstreamTransmission)) != toInt(refOf(r.PeerTransmission))
 //@   ensures[at-most-once-with-given-key] otlpN(r) != old(otlpN(r)) ==> otlpN(r) == old(otlpN(r)) + 1 && otlpKey(r) == keyToUse
 
 //@ contract route.(*Router).postOTLPTrace props C24 havoc
 //@   requires r != nil && req != nil
+//@   requires[distinct-sinks] toInt(refOf(r.UpstreamTransmission)) != toInt(refOf(r.PeerTransmission))
 //@   let clientKey = huskyotlp.GetRequestInfoFromHttpHeaders(req.Header).ApiKey
 //@   let cfg = r.Config.GetAccessKeyConfig()
 //@   let kid = ite(len(cfg.ReceiveKeyIDs) > 0, r.getKeyID(clientKey), "")
@@ -99,6 +103,7 @@ package route
 
 //@ contract route.(*Router).postOTLPLogs props C24 havoc
 //@   requires r != nil && req != nil
+//@   requires[distinct-sinks] toInt(refOf(r.UpstreamTransmission)) != toInt(refOf(r.PeerTransmission))
 //@   let clientKey = huskyotlp.GetRequestInfoFromHttpHeaders(req.Header).ApiKey
 //@   let cfg = r.Config.GetAccessKeyConfig()
 //@   let kid = ite(len(cfg.ReceiveKeyIDs) > 0, r.getKeyID(clientKey), "")
@@ -107,6 +112,7 @@ package route
 
 //@ contract route.(*LogsServer).Export props C24 havoc
 //@   requires l != nil && l.router != nil
+//@   requires[distinct-sinks] toInt(refOf(l.router.UpstreamTransmission)) != toInt(refOf(l.router.PeerTransmission))
 //@   let rt = l.router
 //@   let clientKey = huskyotlp.GetRequestInfoFromGrpcMetadata(ctx).ApiKey
 //@   let cfg = rt.Config.GetAccessKeyConfig()
@@ -175,6 +181,12 @@ package route
 //@   ensures[never-a-probe-upstream] enqN(r.UpstreamTransmission) != old(enqN(r.UpstreamTransmission)) ==> !enqProbe(r.UpstreamTransmission)
 //@   modifies ev.APIHost, ev.Data, ev.dataSize, all(enqN), all(enqLast), all(enqHost), all(enqKey), all(enqDataset), all(enqProbe), all(owns), all(addedN), all(addedLast), all(bufN), all(immN), procN(r)
 //@ owned types.Event
+// The router's sinks are set once by dependency injection before any request is served
+// (assumed; a write anywhere in code under contract is a failed obligation).
+//@ final route.Router.UpstreamTransmission
+//@ final route.Router.PeerTransmission
+//@ final route.TraceServer.router
+//@ final route.LogsServer.router
 
 // ---- C23: responses reflect what happened to the data.
 // procN(router): how many events were handed to processEvent.
